@@ -12,1107 +12,1273 @@ Definition show_fres (r : fres) : string :=
   end.
 Definition check (rs : list rune) : string := digest (show_fres (format_res rs)).
 Definition full (rs : list rune) : string := show_fres (format_res rs).
-Eval vm_compute in ("<<<M360>>>" ++ check (runes_of_ascii "options
-{ MetaDataX =
-// packet A { u8 x, }
-// `tick` ""quote"" 'q'
-true	}  root
-// `tick` ""quote"" 'q'
-/// triple
-packet
-u8x{ repeat
-    uint16 u8x `" ++ [28040; 24687; 31867; 22411]%N ++ runes_of_ascii "` , @tag( //
-42
-// " ++ [128512]%N ++ runes_of_ascii " emoji
-/// triple
-) char[ /// triple
-7 ]
-    trueish @lengthOf(
-    // " ++ [27880; 37322]%N ++ runes_of_ascii "
-    Pad
-    ), tag @lengthOf(A)`say ""hi""` , float rootA
-, // " ++ [27880; 37322]%N ++ runes_of_ascii "
-Foo , repeat uint32 calculatedFrom
-, }
-root packet u128 { repeat
-Packet metadata, repeat
-    zchar[
-    0123456789 ] len
-`u8 x,` ,
-f32 BodyLength @lengthOf( Z9_ ) `it's` ,
-match crc as Packet { 0
-//x
-//x
-:
-    i64_ , [ 255]
-:rootA ,
-    [""a	b""	,
-    ""\" ++ [233]%N ++ runes_of_ascii """
-    , ""\" ++ [233]%N ++ runes_of_ascii """	,// `tick` ""quote"" 'q'
-0 /// triple
-, 4294967296
-] :
-i8i8 , } , @tag( 1  )@calculatedFrom(	""\" ++ [233]%N ++ runes_of_ascii """
-    )string f32a@calculatedFrom( ""abc"")  , repeat As{ matchKey
-    {crc
-    /// triple
-    @calculatedFrom(
-    ""// no comment"" //x
-),
-} ,lengthOf//
-`crlf
-line`
-    // packet A { u8 x, }
+Eval vm_compute in ("<<<M1545>>>" ++ check (runes_of_ascii "
+options{ 	 // c1
+    LittleEndian  // c2a
+// c2b
+  	= 	 // c3a
+	// c3b
+    	true
+
+; 
+// c5
+  StringPrefixLenType// c6a
+    // c6b
+=  u32; // c9a
+  // c9b
+    ArrayPrefixLenType 
+=	u8
+	// c12
+  ;  } 	 // c14a
+
+// c14b
+    packet 	 // c15
+  Heartbeat// c16a
+    // c16b
+{  
+  // c17
+  	string
+
+// c18
+msgKind 
+// c19
+    , 	 // c20a
+// c20b
+	}	// c21a
+// c21b
+
+  packet// c22
+    	Logon 
+// c23
+  {repeat 
+      // c25
+  Heartbeat// c26a
+
+// c26b
+  ,// c27a
+	// c27b
+repeat  // c28
+  string // c29
+
+  Px  // c30a
+    // c30b
+      ,  // c31
+uint8  // c32a
+  	// c32b
+Tail 
+// c33
+	,
+char[]
+        // c35
+
+  f1 	 // c36a
+  	// c36b
+
+	, 
+	// c37
+}packet
+
+    // c39
+Cancel	// c40
+	{// c41a
+// c41b
+
+  zchar[ // c42a
+
+  // c42b
+    	4 
+      // c43
+  ]	OrderId// c45a
+    // c45b
+,
+
+    // c46
+  Logon
+    // c47
+	, 
+    // c48
+
+  repeat
+InMsgkind98 
+    // c50
+    {	// c51
+  repeat // c52a
+	// c52b
+u8  // c53a
+// c53b
+tag7,// c55
+		repeat
+// c56
+InFlags69 // c57
+  { 	 // c58a
+  	// c58b
+
+  char[] 
+	    // c59
+
+  Note// c60
+  	, // c61a
+// c61b
+  char[]
+	lastPx  // c63a
+// c63b
+
+	, // c64a
+// c64b
+		char[
+	11
+
+] 	 // c67
+
+  Ref, 
+  // c69
+	  Logon 
+	    // c70
+, // c71
+      } // c72
+		,	// c73a
+		// c73b
+
+repeat	// c74
+    Heartbeat ,
+	// c76
+    }// c77
+  , // c78a
+// c78b
+  zchar[// c79
+
+	7
+    // c80
+  ] 	 // c81a
+    // c81b
+    	Px 
+	    // c82
+
+	,  // c83
+  u32
+seqNo 
+, 
+// c86
+	  }// c87
+root
+    // c88
+	packet Reject // c90
+    	{
+	i16 	 // c92a
+
+// c92b
+  tag7// c93
+    , 
+
+// c94
+
+  char[ 
+
+    // c95
+		3	// c96a
+    // c96b
+] // c97
+  Qty // c98a
+// c98b
+, 	 // c99a
+  // c99b
+    InRef42 
+{
+u8
+    pad0	// c103a
+
+  // c103b
     ,
-// a // b
-// a // b
-T //
-Pad `a\` , repeat i8i8 charz ,// a // b
-}  , }
-    packet	packetx{ @lengthOf( Packet
+    // c104
+  }  // c105
+    	, 
+      // c106
+
+  uint32  // c107a
+	  // c107b
+	f1 // c108a
+
+// c108b
+	, 
+	    // c109
+	zchar[ 	 // c110
+7
+]
+
+OrderId	, 	 // c114a
+
+	// c114b
+zchar[ 	 // c115a
+// c115b
+8  // c116
+  	]x
+, 
+	// c119
+    	} ")).
+Eval vm_compute in ("<<<M106>>>" ++ check (runes_of_ascii "packet //	t
+packetx { } root packet repeatCount
+// trailing space 
+// 50% %s
+{
+    int16
+    rootA @lengthOf(// " ++ [27880; 37322]%N ++ runes_of_ascii "
+len) ``
+// " ++ [128512]%N ++ runes_of_ascii " emoji
+// trailing space 
+, i32 A
+@calculatedFrom( ""a\\"" ), i16 asx @calculatedFrom( ""x y""
+) ,repeat char[]
+    x,}
+root
+    packet
+lengthOf//x
+{ @leftPad ( '0')@calculatedFrom(
+""\" ++ [233]%N ++ runes_of_ascii """ ) @lengthOf( // @lengthOf(
+Z9_
+    ) repeat char[]  As
+, @rightPad ( ' ' // @lengthOf(
+)
+    repeat	zchar
+, match a1
+as pack
+{ [  3  ]
+    : lengthOf ,[ 007
+, ""x y"" ] :
+A, } ,
+    repeat chars { char[ 4294967296
+] //
+body , body @lengthOf( pack), string Z9_
+    , } , @leftPad( ' ' )
+zchar[ // packet A { u8 x, }
+255]Header , @tag(0
+//	t
+// 50% %s
+)repeat char[ 00 ]
+    // " ++ [27880; 37322]%N ++ runes_of_ascii "
+    roots	,match crc as body { ""`tick`"" ://	t
+a1 } , @tag( 1 ) char[] rootA @calculatedFrom( """ ++ [233]%N ++ runes_of_ascii "t" ++ [233]%N ++ runes_of_ascii """
+// `tick` ""quote"" 'q'
+//
+) // a // b
+,	} packet pack  {
+match Packet
+as /// triple
+repeatCount
+{
+    //x
+    ""a	b"" : pack, } , packetx packetx
+,//	t
+match
+    // c
+    o  as Packet { // a // b
+0123456789 :
+lengthOf,// `tick` ""quote"" 'q'
+""CRC32""
+    :
+i64_ , 1
+    :asx ,	""\" ++ [233]%N ++ runes_of_ascii """
+:
+    // packet A { u8 x, }
+    o
+    ,
+    ""a	b"" :u128, ""// no comment"" :Packet
+,
+    // `tick` ""quote"" 'q'
+    } ,
+    @leftPad ( '0')@calculatedFrom(
+    """ ++ [128512]%N ++ runes_of_ascii """ ) A @calculatedFrom( ""{,}""  ) `u8 x,`,	@tag( 255 ) float32 MetaDataX
+, char[]u128@lengthOf( zchar ),
+    match
+x	as _x
+{00 :
+A ,} ,
+    //	t
+    }")).
+Eval vm_compute in ("<<<M313>>>" ++ check (runes_of_ascii "root	packet packetx { /// triple
+@tag(//
+007	) int16
+int``
+    // `tick` ""quote"" 'q'
+    ,@calculatedFrom( ""x y"" ) repeat string a1
+`it's` ,@lengthOf(Header
     )
 repeat
-    uint8x
-//
-// " ++ [128512]%N ++ runes_of_ascii " emoji
-`line1
-line2` ,@tag( 0123456789 ) string BodyLength @calculatedFrom(  """ ++ [28040; 24687]%N ++ runes_of_ascii """) ,// trailing space 
-zchar[42
-]
-MetaDataX
-    //
-    , char
-    A @lengthOf(
-    /// triple
-    tag ) `two words`, @tag(
-    10 ) @calculatedFrom(""" ++ [28040; 24687]%N ++ runes_of_ascii """
-// `tick` ""quote"" 'q'
-//x
-)
-@calculatedFrom(
-    ""x y"" ) char[ 7 ] repeatCount @calculatedFrom(
-""// no comment""
-    )	,@calculatedFrom(
-""it's"" )	char[	65535 ]
-packetx`// not a comment` ,
-@leftPad //	t
-( ' ' ) match  tag as packetx
-{ 00 : int ,
-    } , @tag( 7
-//
-// " ++ [128512]%N ++ runes_of_ascii " emoji
-)@lengthOf(
-    // @lengthOf(
-    float
-    ) @tag(  0123456789	) Z9_ , @tag( // c
-00 )tag { uint16
-MetaDataX
+char[ 1
+    ]
+    string_ `` , uint64
+falsey @lengthOf( i8i8 )
     ,
-    u tag	`tab	here`,float64 Packet @calculatedFrom( ""{,}"" )	, x_y_z u128 ,
-} , char[] msg_type @lengthOf( calculatedFrom ) `line1
-line2`
-    , } MetaData // " ++ [27880; 37322]%N ++ runes_of_ascii "
-float{
-    uint32
-crc, charz msg_type , u128 crc , string stringy
-`" ++ [233]%N ++ runes_of_ascii "`, }")).
-Eval vm_compute in ("<<<M1499>>>" ++ check (runes_of_ascii "// a // b
+@lengthOf( u ) match
+    roots
+    as u128 {[ ""`tick`"" // " ++ [27880; 37322]%N ++ runes_of_ascii "
+,
+4294967296
+, """" ,
+65535 ,""" ++ [28040; 24687]%N ++ runes_of_ascii """ ,
+    /// triple
+    ""CRC32""
+    , ""a	b"" , ""a	b""] : options1
+,[ 007, ""abc"" , 65535  ] :
+A, 7 : f32a ,""abc""
+// " ++ [27880; 37322]%N ++ runes_of_ascii "
+// packet A { u8 x, }
+:
+    i8i8 , ""it's""	:
+o //	t
+, [ ""{,}"" /// triple
+, // `tick` ""quote"" 'q'
+42
+, 65535
+    //
+    ,"""" // `tick` ""quote"" 'q'
+,
+""a\""b"", 4294967296, 0
+    ] :T
+/// triple
+//x
+} ,
+@tag( 7 )	char
+o @calculatedFrom(  ""// no comment"")  , repeat f32
+    float// packet A { u8 x, }
+`line1
+line2` , @lengthOf( f32a )
+match rootA// c
+as matchKey {007	:x // packet A { u8 x, }
+,
+    """ ++ [233]%N ++ runes_of_ascii "t" ++ [233]%N ++ runes_of_ascii """
+:
+    charz
+,[ ""x y"" ,4294967296
+, 255 , 00
+// trailing space 
+// a // b
+]	: len} , @tag(
+0123456789 )	repeat
+    trueish
+    // @lengthOf(
+    i64_ , }packet
+    lengthOf
+{ }// a // b
+packet len
+{ @calculatedFrom(
+    /// triple
+    ""a	b"")  _x
+    roots`a\`, }
+//	t
+")).
+Eval vm_compute in ("<<<M1354>>>" ++ check (runes_of_ascii "options
+{ LittleEndian=
+
+    true
+;
+StringPrefixLenType  = 
+u8	;ArrayPrefixLenType
+
+    =u8
+; FixedStringPadFromLeft= 
+true ;
+
+    FixedStringPadChar	=
+'0'
+;	} 
 packet
 
-stringy{string
-zchar	,
+Logon{
 
-    repeat
-	T
+    repeat  i8
+Ref
 
-,
-
-    match u
-	as	charz
-    {
-	007 
-    //x
-    : 
-    //	t
-	// @lengthOf(
-    float// trailing space 
-
-,
-	""\" ++ [233]%N ++ runes_of_ascii """:Logon  ""a	b""
-: 
-	    //	t
-//	t
-
-  pack  ,
-
-    }
     ,
-    match	uint8x
-as 
-    // " ++ [27880; 37322]%N ++ runes_of_ascii "
-	roots
-	{
 
-1 
-  // `tick` ""quote"" 'q'
-: 
-len
+@rightPad ('0'
+	)char[
+	8	]
+    msgKind,
+repeat
 
-,}
-	    //x
-    	// " ++ [27880; 37322]%N ++ runes_of_ascii "
-, } packet  zchar {
-roots
-options1
-//x
-    `// not a comment`,
+InOrderid72 
+{
+    u8
+	Side2,
+uint32 Qty,  repeat  InPrice27 {repeat
+char[4]Acct  ,
 
+    u64 sym ,
+} 
+, zchar[
+	4	]
+	clOrdID
+
+    ,int16 lastPx ,  InAcct22
+{repeat	char[
+
+    3
+	]
+OrderId
+    ,
+
+}
+	,}
+
+,
     int64
-	As ,i16	float 
-@lengthOf(	falsey
 
-    // " ++ [27880; 37322]%N ++ runes_of_ascii "
-    	)
+    Px,}packet	Fill {  uint16
+Qty , repeat char[
+    1 ] Flags ,
+    i8
 
-`a\`,  int64
-msg_type
-`tab	here`, @tag( 0
-// `tick` ""quote"" 'q'
-) repeat uint8x
-, @lengthOf( 
-x
-	)  repeat  metadata
+    Ref 
+,	}
+	packet
+Logout
+{ @leftPad
+    ('0'
 
+)
+char[	3 ]
+	x
     ,
-	zchar[
-
-0  ] int 
-,uint64 
-zchar,
-
-    zchar[7// " ++ [27880; 37322]%N ++ runes_of_ascii "
-    	]  msg_type
-
-    ,  @calculatedFrom( 
-/// triple
-  // " ++ [27880; 37322]%N ++ runes_of_ascii "
-
-""" ++ [28040; 24687]%N ++ runes_of_ascii """ 
-)
-	crc , } root 
-packet 
-zchar 
-{	repeat leftPad  ,}packet
-	A {@lengthOf(string_
-
-)
-    x
-	@lengthOf(	options1 )`two words`, 
-string	len ,
-	}
-packet 
-falsey{ i64_
-    @calculatedFrom( ""{,}""
-)
-
+int8
+f1 ,Logon
+, uint16
+venue
     ,
 
-repeat  string  chars ,
-	zchar[
-
-    7]
-
-    calculatedFrom, 
-Header  {	char
-
-    u `two words`
-,
-repeat
-char[]// c
-  	tag `say ""hi""` ,	Z9_@lengthOf(T )  `line1
-line2` ,} ,
-    msg_type
-	@calculatedFrom( ""// no comment""
-
-)
-
-,
-
-    @rightPad	( 	 // packet A { u8 x, }
-		'\x00')
-
-@lengthOf(asx
-)
-    falsey ,
-    }  // packet A { u8 x, }")).
-Eval vm_compute in ("<<<M8>>>" ++ check (runes_of_ascii "// @lengthOf(
-packet Pad { zchar[
-    0 ]Header @calculatedFrom(
-""a	b"" ) // " ++ [27880; 37322]%N ++ runes_of_ascii "
-`say ""hi""` , @calculatedFrom(
-    ""a\""b"" // a // b
-)  body @lengthOf( body// `tick` ""quote"" 'q'
-)`say ""hi""` , u16 stringy@lengthOf(
-    // trailing space 
-    trueish ) , @lengthOf( rootA) f64 Foo `say ""hi""` // c
-,u16 Z9_ , x_y_z , }
-    MetaData metadata { uint64 x , trueish chars//
-,
-    asx lengthOf `u8 x,`  ,
-} options { body // a // b
-=	""packet"" } root
-    packet MetaDataX {zchar[
-42	]
-a1
-,Packet x_y_z // " ++ [27880; 37322]%N ++ runes_of_ascii "
-, u8 Foo
-    `u8 x,` , u64
-//	t
-/// triple
-tag, @tag( 1 //x
-)  string x_y_z @calculatedFrom( ""x y"" ) ,f32 Logon	, _x ,charz // a // b
-{
-    rootA metadata `crlf
-line`
-    , Header @calculatedFrom( ""\" ++ [233]%N ++ runes_of_ascii """ ) `` ,
-i64_`line1
-line2`
-    // @lengthOf(
-    , } ,@lengthOf(
-a1// `tick` ""quote"" 'q'
-) string
-As	`doc`
-    , @tag(
-1 ) match As
-    as	trueish
-    //	t
-    {
-    [ ""`tick`""
-    // trailing space 
-    ] :charz,  ""packet"": asx , 42  :
-packetx, [ ""a\\"" ] :
-u }
-,
-}
-/// triple
-")).
-Eval vm_compute in ("<<<M221>>>" ++ check (runes_of_ascii "packet u128
-{ @rightPad (
-' ' )
-i64_ { Logon ,char[ 4294967296
-    // @lengthOf(
-    ] MetaDataX@calculatedFrom( """ ++ [28040; 24687]%N ++ runes_of_ascii """ ) , } // " ++ [27880; 37322]%N ++ runes_of_ascii "
-,	rootA{ zchar[
-    // " ++ [128512]%N ++ runes_of_ascii " emoji
-    1 // a // b
-]rootA ,
-asx { rootA @calculatedFrom( ""abc""  ), repeat uint16 x_y_z
-,
-    // packet A { u8 x, }
     zchar[
-42
-    ] stringy ,body , }, }, @leftPad
-( '\x00' ) char[ 3]Z9_ @lengthOf(  roots )
-    // trailing space 
-    `" ++ [233]%N ++ runes_of_ascii "`	, @lengthOf( charz	) @leftPad ( '0')@calculatedFrom(  ""a\""b"" )
-    zchar[//	t
-7 ]
-    // @lengthOf(
-    a1 @calculatedFrom( ""\" ++ [233]%N ++ runes_of_ascii """
-) //
-`// not a comment` ,
-@lengthOf( lengthOf ) repeat
-i16
-chars
-,int
-{
-    //	t
-    zchar[
-    1 ] calculatedFrom`line1
-line2`,Packet `" ++ [28040; 24687; 31867; 22411]%N ++ runes_of_ascii "` , } ,// " ++ [128512]%N ++ runes_of_ascii " emoji
-@rightPad ( '\x00'  )
-    zchar[255 // `tick` ""quote"" 'q'
+	2
+
+    ]Px
+    ,
+	}	packet
+
+Reject {	} root
+
+packet
+
+Leg{
+Fill
+,u16
+
+    msgKind	,
+	match 
+msgKind
+as
+Body 
+{ [
+182,83
+
 ]
-    repeatCount @calculatedFrom(""\" ++ [233]%N ++ runes_of_ascii """ ) , repeat
-    char[] Pad
-`a\` ,  @lengthOf( pack )	i8 int , }")).
-Eval vm_compute in ("<<<M209>>>" ++ check (runes_of_ascii "packet calculatedFrom { // a // b
-string charz
-`two words`
-//	t
-//x
-, } packet stringy {
-@lengthOf(msg_type
-)	crc
-    // " ++ [128512]%N ++ runes_of_ascii " emoji
-    , @leftPad
-(	'0')crc @lengthOf(
-u128 //	t
-) ,@leftPad(
-    ' '
-)match
-x_y_z as
-rootA { [// @lengthOf(
-3 ,255 ] : int
-    ""1"": o ,// a // b
-10:tag
-, // c
-10// " ++ [128512]%N ++ runes_of_ascii " emoji
-: Header
-    ,3 :
-a1,""" ++ [128512]%N ++ runes_of_ascii """ :
-packetx
-    , }
-// packet A { u8 x, }
-// packet A { u8 x, }
-, match
-// " ++ [27880; 37322]%N ++ runes_of_ascii "
-// a // b
-o as x//x
-{  ""a	b"" : u8x ,} ,  @rightPad () repeat
-u packetx
+
+    : 
+Fill ,
+
+    199 : 
+Reject 
 ,
-    T // " ++ [27880; 37322]%N ++ runes_of_ascii "
-,repeat
-Logon ,	T{repeat
-x_y_z , // a // b
-i8 crc
-`two words` ,
-char[] calculatedFrom
-    @calculatedFrom(""x y""
-) , } , roots calculatedFrom,
-@lengthOf(
-asx)  repeat x_y_z{ T
-matchKey, } , }
-options { float
-=char[1 ]
-    ;
-    msg_type // c
-=i8 x =
-//
-// `tick` ""quote"" 'q'
-zchar[ 7] ; f32a =""\n""}
-")).
-Eval vm_compute in ("<<<M369>>>" ++ check (runes_of_ascii "root
-packet leftPad { @calculatedFrom( """ ++ [128512]%N ++ runes_of_ascii """) int64 len
-`{ , }` , } packet
-    u128
-    { zchar[ 65535 ] chars @calculatedFrom( ""\" ++ [233]%N ++ runes_of_ascii """
-    ), @lengthOf(  int
-// packet A { u8 x, }
+137 :
+    Logout
+
+, 35:  Logon,
+}
+
+,
+    u32
+lastPx@calculatedFrom(  ""CRC32"" )  ,
+
+    }")).
+Eval vm_compute in ("<<<M9>>>" ++ check (runes_of_ascii "packet roots { u16 packetx`say ""hi""` ,  @tag( 00 )string trueish ,
+// 50% %s
 // @lengthOf(
-) i64_ , crc { match	Z9_ as Logon
-    {
-10 : int ,
-[ 0 ]
-: u8x ,
-// trailing space 
-//x
-42 :
-    trueish , [ ""\" ++ [233]%N ++ runes_of_ascii """ , 4294967296
-    ]
-:Z9_
-    ""\n""	: u128 ,	} ,
-    repeat string_ uint8x, i8i8 , match u as body
-{ 4294967296:
-// " ++ [27880; 37322]%N ++ runes_of_ascii "
-/// triple
-Z9_, 10
-:	Z9_,
-[ """ ++ [128512]%N ++ runes_of_ascii """
-    ,
-    ""x y"" ]
-: pack ,
-    } , }
-, @tag( // " ++ [128512]%N ++ runes_of_ascii " emoji
-0123456789 )
-    @lengthOf( calculatedFrom) @leftPad ( '\x00' // c
-) zchar[ 3 ]
-    T ,
-match A  as
-    leftPad{ [ """ ++ [28040; 24687]%N ++ runes_of_ascii """ ] :i64_""// no comment"" :
-    string_
-    ,
-} , } // trailing space ")).
-Eval vm_compute in ("<<<M1521>>>" ++ check (runes_of_ascii "packet stringy {
-    repeat T {
-        u64 lengthOf `tab	here`,
-        repeat _x {
-            match calculatedFrom as Header {
-                [""" ++ [233]%N ++ runes_of_ascii "t" ++ [233]%N ++ runes_of_ascii """] : _x,
-                // @lengthOf(
-                [""packet""] : MetaDataX,
-                255 : u128,
-                42 : A,
-                ""// no comment"" : body,
-            },
-            repeat crc Foo,
-            charz,
-        },
-        zchar[1] i8i8 @calculatedFrom(""x y""),
-        uint8x Pad `line1
-        line2`,
-    },
-    @lengthOf(u)
-    char[4294967296] crc,
-    @tag(007)
-    repeatCount,
-    repeat char[] Header,
-    @rightPad()
-    char[] string_ `a\`,
-}")).
-Eval vm_compute in ("<<<M113>>>" ++ check (runes_of_ascii "options	{
-As
-= // packet A { u8 x, }
-' '}MetaData o{} root packet pack
-{ } packet tag // " ++ [128512]%N ++ runes_of_ascii " emoji
-{ match falsey as
-BodyLength	{ 4294967296
-:
-    lengthOf
-// c
-// " ++ [27880; 37322]%N ++ runes_of_ascii "
-,[ ""x y""
-,""a\\""
-    ]
-    : rootA , [
-42 , ""a	b"" ,
-    ""CRC32"" , 65535 ,""abc"" , 007 ]
-:
-u8x	""x y"" : A ,
+}	packet falsey {match o
+as zchar {
+[7
+,
+    // a // b
+    """ ++ [233]%N ++ runes_of_ascii "t" ++ [233]%N ++ runes_of_ascii """ ]:leftPad ,
+    ""a	b"" : f32a ,
+[""`tick`""
+, 10
     /// triple
-    65535 :  i64_,
-    0123456789 :
-    Packet }
-    , @lengthOf(  msg_type)	pack msg_type,
-    @tag( 0 )@lengthOf( Packet
-)/// triple
-@tag(
-3 )
-//	t
-// " ++ [128512]%N ++ runes_of_ascii " emoji
-Foo , repeat float64 zchar, @calculatedFrom(
-""a\""b""
-) @lengthOf(A )@lengthOf( roots
-) options1 @lengthOf(
-Z9_ ),char[] T ,  }")).
-Eval vm_compute in ("<<<M40>>>" ++ check (runes_of_ascii "packet stringy
-//	t
-//
-{ repeat T// trailing space 
-{ u64 lengthOf
-`tab	here`  ,
-repeat
-_x { match calculatedFrom as Header { [""" ++ [233]%N ++ runes_of_ascii "t" ++ [233]%N ++ runes_of_ascii """
-    ] : _x  ,// @lengthOf(
-[""packet"" ] :
-MetaDataX , 255 : u128,42 :
-A
-""// no comment"" : body
-    , }
-, repeat crc Foo, charz
     ,
-}	,zchar[ 1
-    ]i8i8@calculatedFrom( ""x y"" ),  uint8x
-    // " ++ [27880; 37322]%N ++ runes_of_ascii "
-    Pad
-`line1
-line2` , } ,
-@lengthOf( u )
-char[ //x
-4294967296 ]crc, @tag(  007 //x
-)repeatCount ,
-repeat
+// @lengthOf(
+// `tick` ""quote"" 'q'
+4294967296, 255 ,
+10
+, ""{,}""
+// a // b
+//
+, """"
+    ]
+    : // a // b
+i64_
+, 00 : len , [ 10,
+    0,0123456789//x
+]
+:float }, repeat // 50% %s
+char[] BodyLength ,
+    @rightPad (
+    '0'
+    ) @calculatedFrom( // trailing space 
+""a	b""
+)match Foo as chars {	""" ++ [28040; 24687]%N ++ runes_of_ascii """ : asx, ""packet""	: _x , },} root /// triple
+packet x
+    { @calculatedFrom( """ ++ [233]%N ++ runes_of_ascii "t" ++ [233]%N ++ runes_of_ascii """
+)// c
+uint16 calculatedFrom , asx rootA `{ , }` , @calculatedFrom(	""" ++ [28040; 24687]%N ++ runes_of_ascii """ )	x A ,@lengthOf( u8x) @calculatedFrom(
+""1"" ) @lengthOf(
     //x
-    char[] Header, @rightPad ( )char[] string_ `a\` ,
-    }
+    uint8x )
+    zchar[ 65535]lengthOf
+`tab	here`,}")).
+Eval vm_compute in ("<<<M1392>>>" ++ check (runes_of_ascii "// top
+options // c0a
+  // c0b
+{ LittleEndian = // c3
+true
+    // c4
+; } // c6
+packet
+    // c7
+Sub { // c9a
+  // c9b
+u8 a // c11
+,
+    // c12
+@calculatedFrom( ""CRC16"" ) // c15a
+  // c15b
+u64 // c16a
+  // c16b
+SubSum // c17
+, // c18a
+  // c18b
+}
+    // c19
+root
+    // c20
+packet // c21a
+  // c21b
+Frame // c22
+{
+    // c23
+u16 // c24a
+  // c24b
+MsgType , // c26
+u16 BodyLen // c28a
+  // c28b
+@lengthOf( Body // c30
+) // c31
+, // c32a
+  // c32b
+Sub // c33a
+  // c33b
+Body , // c35
+string
+    // c36
+note
+    // c37
+,
+    // c38
+@calculatedFrom( // c39
+""CRC16""
+    // c40
+) // c41a
+  // c41b
+u64 Checksum
+    // c43
+,
+    // c44
+u8 // c45a
+  // c45b
+tail // c46
+, // c47
+} // c48a
+  // c48b
 ")).
-Eval vm_compute in ("<<<M1703>>>" ++ check (runes_of_ascii "MetaData falsey {
-}
-
-root packet o {
-    @tag(3)
-    @calculatedFrom("""")
-    @lengthOf(pack)
-    char[65535] falsey @lengthOf(falsey),
-}
-
-root packet roots {
-    @lengthOf(chars)
-    match Logon as chars {
-        ""`tick`"" : charz,
-        // packet A { u8 x, }
-        ""a\\"" : Z9_,
-        007 : trueish,
-        ""CRC32"" : msg_type,
-        [
-            3, 3, 00, 4294967296, 0,
-            7, ""x y"", ""\" ++ [233]%N ++ runes_of_ascii """
-        ] : metadata,
-        ""a	b"" : crc,
-    },
-}")).
-Eval vm_compute in ("<<<M1631>>>" ++ check (runes_of_ascii "packet Frame {
-    u8 HK,
-    u8 BK,
-    u8 TK,
-    match HK as Hdr {
-        1 : HdrA,
-        2 : HdrB,
-    },
-    match BK as Body {
-        1 : BodyA,
-        2 : BodyB,
-    },
-    match TK as Trl {
-        1 : TrlA,
-    },
-}
-
-packet HdrA {
-    u8 a,
-}
-
-packet HdrB {
-    u16 b,
-}
-
-packet BodyA {
-    u32 c,
-}
-
-packet BodyB {
-    u64 d,
-}
-
-packet TrlA {
-    u8 e,
-}
-
-root packet Msg {
-    Frame,
-    u8 x,
-}")).
-Eval vm_compute in ("<<<M1259>>>" ++ check (runes_of_ascii "// top
-packet // c0
-B // c1a
+Eval vm_compute in ("<<<M1401>>>" ++ check (runes_of_ascii "// top
+packet
+    // c0
+Sub // c1a
   // c1b
 { // c2
-u8 // c3a
-  // c3b
-a // c4
-, } // c6
-root // c7a
+u8 // c3
+a
+    // c4
+, // c5
+@calculatedFrom( // c6a
+  // c6b
+""CRC16"" // c7a
   // c7b
-packet // c8a
-  // c8b
-P { // c10
-u8
-    // c11
-K , // c13
-u8 // c14a
-  // c14b
-L // c15a
-  // c15b
-@lengthOf( // c16a
+)
+    // c8
+i64 // c9
+SubSum
+    // c10
+, // c11
+}
+    // c12
+root
+    // c13
+packet // c14
+Frame // c15
+{ // c16a
   // c16b
-Body )
-    // c18
-, match // c20
-K as // c22a
+u16 MsgType , u16 BodyLen @lengthOf( // c22a
   // c22b
 Body
     // c23
-{ 1 :
-    // c26
-B // c27
-, }
-    // c29
+) // c24a
+  // c24b
+, Sub // c26a
+  // c26b
+Body
+    // c27
 ,
-    // c30
-}
-    // c31
+    // c28
+string
+    // c29
+note // c30a
+  // c30b
+, // c31a
+  // c31b
+@calculatedFrom(
+    // c32
+""CRC16"" // c33a
+  // c33b
+)
+    // c34
+i64 // c35
+Checksum , // c37
+u8 // c38
+tail // c39
+, } // c41a
+  // c41b
 ")).
-Eval vm_compute in ("<<<M1668>>>" ++ check (runes_of_ascii "  root
-    packet o
-{ }
-
-MetaData
-
-uint8x
-{int64 rootA,  }  MetaData
-As {i32 	 // packet A { u8 x, }
-	chars
-
-, }
-	packet Z9_ 	 // trailing space 
-	{ @leftPad
-
-    (
-
-)	char[]
-
-x_y_z ,
-	}  packet tag { @leftPad
-	(
-
-// " ++ [128512]%N ++ runes_of_ascii " emoji
-    // " ++ [27880; 37322]%N ++ runes_of_ascii "
-  	' ')zchar[
-0// `tick` ""quote"" 'q'
-  	]rootA
-@calculatedFrom( 
-""a\\""
-
-    )
-`tab	here`
-
-    ,
-}
-")).
-Eval vm_compute in ("<<<M1191>>>" ++ check (runes_of_ascii "// top
-MetaData // c0
-uint8x // c1
-{ // c2
-char[] // c3
-f32a // c4
-`// not a comment` // c5
-, // c6
-float32 // c7
-roots // c8
-, // c9
-char[ // c10
-7 // c11
-] // c12
-u8x // c13
-, // c14
-zchar[ // c15
-10 // c16
-] // c17
-f32a // c18
-, // c19
-u64 // c20
-pack // c21
-, // c22
-u16 // c23
-pack // c24
-, // c25
-} // c26
-")).
-Eval vm_compute in ("<<<M1525>>>" ++ check (runes_of_ascii "MetaData T {
-    uint8 float,
-    repeatCount x,
-    char[10] asx,
-    char[00] metadata `" ++ [233]%N ++ runes_of_ascii "`,
-    u8x asx,
-}
-
-MetaData trueish {
-    charz string_ `crlf
-    line`,
-    zchar[42] _x,
-}
-
-packet o {
-    char[] u8x @calculatedFrom(""abc""),
+Eval vm_compute in ("<<<M1875>>>" ++ check (runes_of_ascii "options {
+    charz = false;
+    Z9_ = ""\" ++ [233]%N ++ runes_of_ascii """;// c
 }
 
 options {
-    x = 255;
-    u = '0'
-}")).
-Eval vm_compute in ("<<<M1590>>>" ++ check (runes_of_ascii "root packet i8i8 {
+    falsey = char[];
+}
+
+packet metadata {
     @tag(4294967296)
-    // packet A { u8 x, }
-    Header calculatedFrom `
-        `,
-    @tag(4294967296)
-    @rightPad(' ')
-    @lengthOf(float)
-    options1 zchar `" ++ [233]%N ++ runes_of_ascii "`,
-}
-
-root packet x {
-    repeat zchar[10] x `u8 x,`,
-}")).
-Eval vm_compute in ("<<<M273>>>" ++ check (runes_of_ascii "root packet string_ { @leftPad (
-    ' ' )  chars { repeat
-zchar[ 0
-]  tag ,string falsey,// " ++ [128512]%N ++ runes_of_ascii " emoji
-repeat  char[ 007] body  `two words`
-    , } , @calculatedFrom(
-""// no comment"" ) Foo T
-    , // " ++ [128512]%N ++ runes_of_ascii " emoji
-}
-")).
-Eval vm_compute in ("<<<M1586>>>" ++ check (runes_of_ascii "packet u128 {
-    u8 a,
-}
-
-root packet Msg {
-    u8 k,
-    u24 {
-        u8 Hi,
-        u16 Lo,
+    match int as float {
+        [
+            0, 0123456789, 42, 7, ""a\""b"",
+            7
+        ] : zchar,
+        ""1"" : options1,
     },
-    repeat i24 {
-        u32 q,
+    @tag(10)
+    match msg_type as Foo {
+        ""a	b"" : rootA,
+        65535 : roots,
+        00 : trueish,
+        ""\" ++ [233]%N ++ runes_of_ascii """ : MetaDataX,
+        //x
+        // 50% %s
+        00 : Logon,
     },
-    u128,
-    u16 float32x,
-    string s,
-}")).
-Eval vm_compute in ("<<<M1856>>>" ++ check (runes_of_ascii "  MetaData leftPad {
-
-chars	MetaDataX
-
-    ,
-
-    }  packet	repeatCount{char[
-
-    255
-	]
-
-    uint8x `" ++ [233]%N ++ runes_of_ascii "`, }
-
-MetaData
-	pack
-	{
-As
-    Foo , 
-        // c
-}
-
-")).
-Eval vm_compute in ("<<<M418>>>" ++ check (runes_of_ascii "packet uint8x
-{ match pack
-    @rightPad msg_type	{
-    0123456789 :	float
-}
-,
-} packet //	t
-a1
-    { } options {packetx
-    = '\x00'	; u128= ""a	b""  ; }
-")).
-Eval vm_compute in ("<<<M1272>>>" ++ check (runes_of_ascii "
-options{
-LittleEndian=
-
-true; } packet
-	B	{
-u8 a
-
-    ,
-string  s, 
-}	root
-
-packet
-
-P
-
-{ u16
-    L
-    @lengthOf(
-
-    B
-)
-,
-B,
-    u8
-t ,  }")).
-Eval vm_compute in ("<<<M545>>>" ++ check (runes_of_ascii "packet uint8x
-{ match' pack
-    as msg_type	{
-    0123456789 :	float
-}
-,
-} packet //	t
-a1
-    { } options {packetx
-    = '\x00'	; u128= ""a	b""  ; }
-")).
-Eval vm_compute in ("<<<M498>>>" ++ check (runes_of_ascii "packet uint8x
-{ match pack
-    as msg_type	{
-    0123456789 :	float
-}
-,
-} packet //	t
-a1
-    { } options {packetx
-    ; '\x00'	; u128= ""a	b""  ; }
-")).
-Eval vm_compute in ("<<<M415>>>" ++ check (runes_of_ascii "packet uint8x
-{ match pack
-     msg_type	{
-    0123456789 :	float
-}
-,
-} packet //	t
-a1
-    { } options {packetx
-    = '\x00'	; u128= ""a	b""  ; }
-")).
-Eval vm_compute in ("<<<M678>>>" ++ check (runes_of_ascii "// @lengthOf(
-packet i8i8 { u128 o , }
-options { MetaDataX = true;
-    BodyLength =""packet"" x_y_z= 007
-crc //x
-= ""abc"" ;
-    < msg_type =
-i16 }")).
-Eval vm_compute in ("<<<M685>>>" ++ check (runes_of_ascii "// @lengthOf(
-packet i8i8 { u128 o , }
-options { MetaDataX = true;
-    BodyLength =""packet"" x_y_z= 007
-crc //x
-= ""abc"" ;
-    = msg_type
-i16 }")).
-Eval vm_compute in ("<<<M1606>>>" ++ check (runes_of_ascii "packet
-	A {  match k	as
-
-    n 
-{ 
-[ 1
-    ,
-22 
-,""c c""
-	,4
-,5 ,	""f""  ,7
-
-    ,	8 
-,
-
-""i"", 10,
-
-    11  ]  :	B,
-2 
-: C  },
-    }
-")).
-Eval vm_compute in ("<<<M37>>>" ++ check (runes_of_ascii "//
-root /// triple
-packet // trailing space 
-pack {
-@leftPad(
-    ' ' )
-    repeat trueish zchar ,	} root
-    packet // " ++ [27880; 37322]%N ++ runes_of_ascii "
-Header { }")).
-Eval vm_compute in ("<<<M1593>>>" ++ check (runes_of_ascii "// c
-MetaData leftPad {
-    chars MetaDataX,
-}
-
-packet repeatCount {
-    char[255] uint8x `" ++ [233]%N ++ runes_of_ascii "`,
-}
-
-MetaData pack {
-    As Foo,
-}")).
-Eval vm_compute in ("<<<M1190>>>" ++ check (runes_of_ascii "MetaData leftPad { chars MetaDataX , } packet repeatCount { char[ 255 ] uint8x `" ++ [233]%N ++ runes_of_ascii "` , } MetaData pack { As Foo , }
-// c
-")).
-Eval vm_compute in ("<<<M1168>>>" ++ check (runes_of_ascii "MetaData leftPad { chars MetaDataX , } packet repeatCount { char[ 255 ]
-// c
-uint8x `" ++ [233]%N ++ runes_of_ascii "` , } MetaData pack { As Foo , }")).
-Eval vm_compute in ("<<<M967>>>" ++ check (runes_of_ascii "packet A {
-    match k as n {
-        ""x\
-y"" : B,
-        [""x\
-y"", 1] : C,
-        [1,2,3,4,5,""x\
-y""] : D,
-    },
-}")).
-Eval vm_compute in ("<<<M1418>>>" ++ check (runes_of_ascii "options
+    repeat len packetx,
+    @lengthOf(Foo)
+    len `two words`,
+    roots,
+}//x")).
+Eval vm_compute in ("<<<M1386>>>" ++ check (runes_of_ascii "options
 
     {
+LittleEndian = false
 
-    FixedStringPadFromLeft =true
-; } root
+    ;
+	StringPrefixLenType =
+
+u16
+;FixedStringPadFromLeft =	true
+
+    ;	FixedStringPadChar  = 
+'0' ; } packet
+
+Fill 
+{
+	}
+
+    root
     packet
-    P
-	{ char[
-	4
 
-    ]z
+Order	{
+repeat
 
-,  }
+Fill  , 
+char[]clOrdID  ,
+    @rightPad
+    ('\x00'	)
+
+    char[4
+
+    ]
+
+lastPx
+, char[] 
+OrderId	, int8 tag7
+
+    ,u8 f1
+, u16 count
+
+    @lengthOf( Body
+    ) ,match
+f1
+
+as
+Body
+
+    {
+	[159
+	, 
+49	]:
+    Fill
+
+,
+    }
+
+    ,  u16  Tail  @calculatedFrom(
+""CRC32""
+
+    ), 
+}")).
+Eval vm_compute in ("<<<M1161>>>" ++ check (runes_of_ascii "// top
+MetaData
+    // c0
+x
+    // c1
+{ // c2
+f32a // c3a
+  // c3b
+Pad
+    // c4
+`` // c5a
+  // c5b
+, // c6a
+  // c6b
+}
+    // c7
+packet leftPad { // c10a
+  // c10b
+repeat // c11
+int64 // c12
+crc // c13a
+  // c13b
+, // c14a
+  // c14b
+BodyLength
+    // c15
+{
+    // c16
+uint8 pack // c18
+`say ""hi""` // c19a
+  // c19b
+,
+    // c20
+lengthOf @lengthOf( // c22
+asx
+    // c23
+) // c24a
+  // c24b
+`" ++ [28040; 24687; 31867; 22411]%N ++ runes_of_ascii "` ,
+    // c26
+} // c27a
+  // c27b
+, // c28
+} // c29a
+  // c29b
 ")).
-Eval vm_compute in ("<<<M944>>>" ++ check (runes_of_ascii "packet A {
-    Inner {
-        u8 x `a
-
-b`,
-        Deep {
-            u8 y `a
-
-b`,
-        },
+Eval vm_compute in ("<<<M1581>>>" ++ check (runes_of_ascii "packet repeatCount {
+    @tag(7)
+    match T as i64_ {
+        """ ++ [233]%N ++ runes_of_ascii "t" ++ [233]%N ++ runes_of_ascii """ : body,
     },
+    @lengthOf(crc)
+    float64 body `u8 x,`,
+    repeat rootA {
+        int16 x_y_z `two words`,
+        zchar[4294967296] trueish `two words`,
+        Pad @lengthOf(Pad) `// not a comment`,
+    },
+    tag string_,
+    @lengthOf(len)
+    // packet A { u8 x, }
+    @tag(255)
+    @lengthOf(Logon)
+    int,
+    Foo @lengthOf(leftPad) `
+    `,
 }")).
-Eval vm_compute in ("<<<M885>>>" ++ check (runes_of_ascii "packet A {
-  match k as n {
-    [""a"", 22, ""c c"", 4, ""e"", 66, ""g"", 8, ""i"", 10] : B
-    2 : C
-  },
+Eval vm_compute in ("<<<M1853>>>" ++ check (runes_of_ascii "options {
+    // c1
+    LittleEndian = true;// c5
+}// c6a
+
+// c6b
+packet Sub {
+    // c9
+    u8 a,
+    // c12
+    u16 SubSum @calculatedFrom(""CRC16""),
+    // c18
+}// c19
+
+root packet Frame {
+    // c23
+    u16 MsgType,
+    u16 BodyLen @lengthOf(Body),
+    Sub Body,// c35a
+    // c35b
+    string note,// c38a
+    // c38b
+    u16 Checksum @calculatedFrom(""CRC16""),
+    u8 tail,
+    // c47
+}// c48")).
+Eval vm_compute in ("<<<M1700>>>" ++ check (runes_of_ascii "packet string_ {
+    @tag(4294967296)
+    repeat u `crlf
+        line`,
+    repeat zchar[0] BodyLength,
+    @tag(255)
+    int `say ""hi""`,
+    uint8x `u8 x,`,
+    @leftPad(' ')
+    string MetaDataX @lengthOf(options1),
+    zchar[00] charz `" ++ [28040; 24687; 31867; 22411]%N ++ runes_of_ascii "`,
+    @calculatedFrom(""" ++ [128512]%N ++ runes_of_ascii """)
+    _x calculatedFrom,
+    uint8 packetx `it's`,
+    @leftPad()
+    zchar[0] Foo `a\`,
 }")).
-Eval vm_compute in ("<<<M605>>>" ++ check (runes_of_ascii "
-packet
-    asx {match u128 as lengthOf
-{
-//	t
+Eval vm_compute in ("<<<M1530>>>" ++ check (runes_of_ascii "MetaData msg_type {
+    //
+    u8 Foo `// not a comment`,
+    char[007] Pad `u8 x,`,
+    f32 o,
+    char[0123456789] falsey,
+    float64 metadata,
+    zchar[0123456789] uint8x,
+}
+
+packet string_ {
+    i16 leftPad `// not a comment`,
+}
+
+packet zchar {
+    MetaDataX @calculatedFrom(""a	b"") `tab	here`,
+    @tag(255)
+    string i64_,
+}")).
+Eval vm_compute in ("<<<M69>>>" ++ check (runes_of_ascii "// " ++ [27880; 37322]%N ++ runes_of_ascii "
+options
+    { calculatedFrom
+    = '\x00'
+packetx= """ ++ [28040; 24687]%N ++ runes_of_ascii """
+    ;i8i8 = """ ++ [28040; 24687]%N ++ runes_of_ascii """; body =
+    '0' falsey= 10
+} packet o {
+    calculatedFrom
+    {
+    repeat
+// c
 // `tick` ""quote"" 'q'
-255 : repeat ,
-    } ,	}")).
-Eval vm_compute in ("<<<M563>>>" ++ check (runes_of_ascii "
-packet
-    asx { {match u128 as lengthOf
-{
-//	t
+zchar[0
+    ] a1 , char[] f32a // trailing space 
+`" ++ [28040; 24687; 31867; 22411]%N ++ runes_of_ascii "`
+//x
+// " ++ [128512]%N ++ runes_of_ascii " emoji
+,
+} ,	} // packet A { u8 x, }")).
+Eval vm_compute in ("<<<M1391>>>" ++ check (runes_of_ascii "options {
+    LittleEndian = true;
+}
+packet Sub {
+    u8 a,
+    @calculatedFrom(""CRC16"") u64 SubSum,
+}
+root packet Frame {
+    u16 MsgType,
+    u16 BodyLen @lengthOf(Body),
+    Sub Body,
+    string note,
+    @calculatedFrom(""CRC16"") u64 Checksum,
+    u8 tail,
+}
+")).
+Eval vm_compute in ("<<<M452>>>" ++ check (runes_of_ascii "packet
+    asx { @calculatedFrom(
+""""  ) @tag( 255 )repeat
+// packet A { u8 x, }
+// trailing space 
+int16 u8x
+,
+@tag( @tag(
+    //
+    007 )
+    @tag( 0
+    /// triple
+    ) @tag( 1) u
+    @lengthOf( T ),
 // `tick` ""quote"" 'q'
-255 : x ,
-    } ,	}")).
-Eval vm_compute in ("<<<M1530>>>" ++ check (runes_of_ascii "packet A {
+//x
+} // " ++ [128512]%N ++ runes_of_ascii " emoji")).
+Eval vm_compute in ("<<<M497>>>" ++ check (runes_of_ascii "packet
+    asx { @calculatedFrom(
+""""  ) @tag( 255 )repeat
+// packet A { u8 x, }
+// trailing space 
+int16 u8x
+,
+@tag(
+    //
+    007 )
+    @tag( 0
+    /// triple
+    ) @tag( 1) u u
+    @lengthOf( T ),
+// `tick` ""quote"" 'q'
+//x
+} // " ++ [128512]%N ++ runes_of_ascii " emoji")).
+Eval vm_compute in ("<<<M443>>>" ++ check (runes_of_ascii "packet
+    asx { @calculatedFrom(
+""""  ) @tag( 255 )repeat
+// packet A { u8 x, }
+// trailing space 
+int16 ,
+u8x
+@tag(
+    //
+    007 )
+    @tag( 0
+    /// triple
+    ) @tag( 1) u
+    @lengthOf( T ),
+// `tick` ""quote"" 'q'
+//x
+} // " ++ [128512]%N ++ runes_of_ascii " emoji")).
+Eval vm_compute in ("<<<M461>>>" ++ check (runes_of_ascii "packet
+    asx { @calculatedFrom(
+""""  ) @tag( 255 )repeat
+// packet A { u8 x, }
+// trailing space 
+int16 u8x
+,
+@tag(
+    //
+    007 
+    @tag( 0
+    /// triple
+    ) @tag( 1) u
+    @lengthOf( T ),
+// `tick` ""quote"" 'q'
+//x
+} // " ++ [128512]%N ++ runes_of_ascii " emoji")).
+Eval vm_compute in ("<<<M404>>>" ++ check (runes_of_ascii "packet
+    asx { options
+""""  ) @tag( 255 )repeat
+// packet A { u8 x, }
+// trailing space 
+int16 u8x
+,
+@tag(
+    //
+    007 )
+    @tag( 0
+    /// triple
+    ) @tag( 1) u
+    @lengthOf( T ),
+// `tick` ""quote"" 'q'
+//x
+} // " ++ [128512]%N ++ runes_of_ascii " emoji")).
+Eval vm_compute in ("<<<M191>>>" ++ check (runes_of_ascii "packet T { } MetaData lengthOf{  char[ 4294967296 ] a1	, float64
+    body `100% of %d`,
+asx Foo ,	u8x pack
+// @lengthOf(
+// " ++ [128512]%N ++ runes_of_ascii " emoji
+, zchar[
+    // @lengthOf(
+    0123456789 ] Z9_
+, char
+As `crlf
+line`
+, }
+")).
+Eval vm_compute in ("<<<M318>>>" ++ check (runes_of_ascii "packet pack	{} options
+    {_x
+    =""1""	; tag = 007
+    matchKey= ""it's"";
+charz
+    =
+uint16 ; } // @lengthOf(
+options {
+msg_type =007  ;
+    stringy
+=
+    ""`tick`""stringy =
+    007 ;}
+")).
+Eval vm_compute in ("<<<M1912>>>" ++ check (runes_of_ascii "
+packet
+    u8x  {
+char[]
+f32a
+    @lengthOf(
+	Foo)  `100% of %d`
+	,
+
+repeat i8i8
+{
+A	f32a  ,
+x
+    `say ""hi""`
+    , 
+      // @lengthOf(
+	repeat  body	rootA  `
+`	,
+}
+,
+}")).
+Eval vm_compute in ("<<<M654>>>" ++ check (runes_of_ascii "MetaData u
+    { } MetaData o
+{ float uint8x
+`100% of %d` ,repeatCount u8x, string_ leftPad
+, i32
+    Foo , int64 uint8 `two words` , calculatedFrom
+stringy `a\` ,
+}
+")).
+Eval vm_compute in ("<<<M702>>>" ++ check (runes_of_ascii "MetaData u
+    { } MetaData o
+{ float uint8x
+`100% of %d` ,repeatCount u8x, string_ leftPad
+, i32
+    Foo , int64 x `two words` , calculatedFrom
+< stringy `a\` ,
+}
+")).
+Eval vm_compute in ("<<<M618>>>" ++ check (runes_of_ascii "MetaData u
+    { } MetaData o
+{ float uint8x
+`100% of %d` ,repeatCount u8x, leftPad string_
+, i32
+    Foo , int64 x `two words` , calculatedFrom
+stringy `a\` ,
+}
+")).
+Eval vm_compute in ("<<<M681>>>" ++ check (runes_of_ascii "MetaData u
+    { } MetaData o
+{ float uint8x
+`100% of %d` ,repeatCount u8x, string_ leftPad
+, i32
+    Foo , int64 x `two words` , calculatedFrom
+stringy `a\` 
+}
+")).
+Eval vm_compute in ("<<<M621>>>" ++ check (runes_of_ascii "MetaData u
+    { } MetaData o
+{ float uint8x
+`100% of %d` ,repeatCount u8x, string_ 
+, i32
+    Foo , int64 x `two words` , calculatedFrom
+stringy `a\` ,
+}
+")).
+Eval vm_compute in ("<<<M1416>>>" ++ check (runes_of_ascii "
+
+  options 	 // c
+	{
+    } options
+	{
+MetaDataX= char;
+    }
+
+    MetaData
+
+    Pad	{	i8
+metadata ,
+string stringy
+,
+	int8
+As
+
+`{ , }`  , }
+")).
+Eval vm_compute in ("<<<M288>>>" ++ check (runes_of_ascii "packet
+    asx
+{ f32
+    u
+@calculatedFrom(
+""packet"" )  , } MetaData tag
+{ zchar[ 007 ] pack, zchar[00 ]// packet A { u8 x, }
+len`
+` , }")).
+Eval vm_compute in ("<<<M1661>>>" ++ check (runes_of_ascii "packet A {
     match k as n {
-        [""a"", ""bb"", ""c c"", ""d""] : B,
+        [
+            1, 22, ""c c"", 4, 5,
+            ""f"", 7, 8
+        ] : B,
         2 : C,
     },
 }")).
-Eval vm_compute in ("<<<M617>>>" ++ check (runes_of_ascii "
-packet
-    asx {match u128 as lengthOf
-{
-//	t
-// `tick` ""quote"" 'q'
-255 : x ,
-    } 	}")).
-Eval vm_compute in ("<<<M1275>>>" ++ check (runes_of_ascii "
-
-  options{ FixedStringPadFromLeft
-= 
-true 
-; }root 
-packet  P {char[
-    4 ]
-z,
-	}")).
-Eval vm_compute in ("<<<M830>>>" ++ check (runes_of_ascii "packet A {
+Eval vm_compute in ("<<<M1272>>>" ++ check (runes_of_ascii "packet B {
+    u8 a,
+}
+root packet P {
+    u8 K,
+    u64 L @lengthOf(Body),
+    match K as Body {
+        1 : B,
+    },
+}
+")).
+Eval vm_compute in ("<<<M1202>>>" ++ check (runes_of_ascii "
+// c
+options { } options { MetaDataX = char ; } MetaData Pad { i8 metadata , string stringy , int8 As `{ , }` , }")).
+Eval vm_compute in ("<<<M1227>>>" ++ check (runes_of_ascii "options { } options { MetaDataX = char ; } MetaData Pad { // c
+i8 metadata , string stringy , int8 As `{ , }` , }")).
+Eval vm_compute in ("<<<M235>>>" ++ check (runes_of_ascii "// " ++ [128512]%N ++ runes_of_ascii " emoji
+packet lengthOf {zchar[
+1
+    ]u8x
+    `tab	here` ,}packet packetx{@leftPad ( ) f32a `it's`
+    , }")).
+Eval vm_compute in ("<<<M929>>>" ++ check (runes_of_ascii "packet A {
+    u16 len @lengthOf(body) `
+`,
+    u32 crc @calculatedFrom(""CRC32"") `
+`,
+    string body,
+}")).
+Eval vm_compute in ("<<<M640>>>" ++ check (runes_of_ascii "MetaData u
+    { } MetaData o
+{ float uint8x
+`100% of %d` ,repeatCount u8x, string_ leftPad
+, i32")).
+Eval vm_compute in ("<<<M1278>>>" ++ check (runes_of_ascii "packet B {
+    u8 a,
+    string s,
+}
+root packet P {
+    u16 L @lengthOf(B),
+    B,
+    u8 t,
+}
+")).
+Eval vm_compute in ("<<<M868>>>" ++ check (runes_of_ascii "packet A {
   match k as n {
-    [1, ""bb"", 007, ""d"", 5, ""f""] : B,
+    [1, ""bb"", 007, ""d"", 5, ""f"", 7, ""h"", 9] : B
     2 : C
   },
 }")).
-Eval vm_compute in ("<<<M1251>>>" ++ check (runes_of_ascii "packet
-Inner
-	{u8	a 
-,
-} root
-	packet 
-P
-{ Inner	ref_obj,  u8	x
-,
+Eval vm_compute in ("<<<M1624>>>" ++ check (runes_of_ascii "packet	A
+	{	u16 // a
+	len// b
+  @lengthOf(  // c
+body  // d
+  	)	// e
+`d`  // f
+	,
 
-    }
+}")).
+Eval vm_compute in ("<<<M982>>>" ++ check (runes_of_ascii "packet A {
+    u32 crc @calculatedFrom(""x\
+y""),
+    @calculatedFrom(""x\
+y"") u8 y,
+}")).
+Eval vm_compute in ("<<<M822>>>" ++ check (runes_of_ascii "packet A {
+  match k as n {
+    [""a"", ""bb"", 007, ""d"", ""e""] : B
+    2 : C
+  },
+}")).
+Eval vm_compute in ("<<<M1850>>>" ++ check (runes_of_ascii "packet A {
+    B b `a
+    b`,
+    B `a
+    b`,
+    repeat B bs `a
+    b`,
+}")).
+Eval vm_compute in ("<<<M738>>>" ++ check (runes_of_ascii "i64 len u8 true : uint16 ' ' int32 : options @lengthOf( char[] MetaData")).
+Eval vm_compute in ("<<<M1300>>>" ++ check (runes_of_ascii "  root packet P
 
+    {
+repeat
+	string  ss, 
+repeat
+u16 ns
+	, }
 ")).
-Eval vm_compute in ("<<<M601>>>" ++ check (runes_of_ascii "
-packet
-    asx {match u128 as lengthOf
-{
-//	t
-// `tick` ""quote"" 'q'
-255")).
-Eval vm_compute in ("<<<M1422>>>" ++ check (runes_of_ascii "packet	A
-    {match
+Eval vm_compute in ("<<<M1812>>>" ++ check (runes_of_ascii "
+root packet 
+len{
+	@calculatedFrom( ""a\""b""
+)
+    i16 a1	,	}")).
+Eval vm_compute in ("<<<M1949>>>" ++ check (runes_of_ascii "  MetaData	// " ++ [27880; 37322]%N ++ runes_of_ascii "
 
-    k
-as	n {	[  ""a""]  :	B ,
-2  : C}
-    ,
+Foo  {
+
+rootA  f32a
+    //
+  ,
+
+}
+//	t")).
+Eval vm_compute in ("<<<M73>>>" ++ check (runes_of_ascii "options {
+} packet
+Foo
+{
+// 50% %s
+// @lengthOf(
+}
+")).
+Eval vm_compute in ("<<<M1494>>>" ++ check (runes_of_ascii "
+options
+    {
+
+a=""%d%s""; b
+=
+    ""%d%s""
 
 } ")).
-Eval vm_compute in ("<<<M1127>>>" ++ check (runes_of_ascii "// top
-MetaData
-    // c0
-u
-    // c1
-{ // c2a
-  // c2b
-} // c3
-")).
-Eval vm_compute in ("<<<M954>>>" ++ check (runes_of_ascii "packet A {
-    B b `
-x`,
-    B `
-x`,
-    repeat B bs `
-x`,
+Eval vm_compute in ("<<<M1767>>>" ++ check (runes_of_ascii "root packet A {
+    u8 x `x
+        `,
 }")).
-Eval vm_compute in ("<<<M1408>>>" ++ check (runes_of_ascii "
-root 
-packet
-
-    A	{	u8
-
-    x `a
-    b
-  c` ,}
-
-")).
-Eval vm_compute in ("<<<M1208>>>" ++ check (runes_of_ascii "packet body { i32 f32a
-// c
-`{ , }` , } options { }")).
-Eval vm_compute in ("<<<M945>>>" ++ check (runes_of_ascii "MetaData M {
-    u8 x `a
-
-b`,
-    T t `a
-
-b`,
-}")).
-Eval vm_compute in ("<<<M1573>>>" ++ check (runes_of_ascii "root packet A {
-    u8 x `a
-        b`,
-}")).
-Eval vm_compute in ("<<<M935>>>" ++ check (runes_of_ascii "packet A {
+Eval vm_compute in ("<<<M933>>>" ++ check (runes_of_ascii "packet A {
     u8 x `a
     b
   c`,
 }")).
-Eval vm_compute in ("<<<M922>>>" ++ check (runes_of_ascii "root packet A {
+Eval vm_compute in ("<<<M276>>>" ++ check (runes_of_ascii "packet crc// `tick` ""quote"" 'q'
+{}")).
+Eval vm_compute in ("<<<M1711>>>" ++ check (runes_of_ascii "packet A {
     u8 x `a
-b`,
+    b`,
 }")).
-Eval vm_compute in ("<<<M586>>>" ++ check (runes_of_ascii "
-packet
-    asx {match u128 as")).
-Eval vm_compute in ("<<<M757>>>" ++ check (runes_of_ascii "z>" ++ [65533]%N ++ runes_of_ascii "*" ++ [65533]%N ++ runes_of_ascii "7" ++ [65533; 65533; 65533; 65533]%N ++ runes_of_ascii "+" ++ [65533]%N ++ runes_of_ascii "~" ++ [65533; 0; 65533; 65533]%N ++ runes_of_ascii "c" ++ [1171]%N ++ runes_of_ascii "n" ++ [65533; 65533; 65533; 12; 65533]%N ++ runes_of_ascii "E>K")).
-Eval vm_compute in ("<<<M1669>>>" ++ check (runes_of_ascii "MetaData
-	u
-{
-
-} 
-  // c")).
-Eval vm_compute in ("<<<M1106>>>" ++ check (runes_of_ascii "MetaData
-// c
-tag { }")).
-Eval vm_compute in ("<<<M95>>>" ++ check (runes_of_ascii "
-packet  Logon {}
-")).
-Eval vm_compute in ("<<<M1046>>>" ++ check (runes_of_ascii "packet A {
+Eval vm_compute in ("<<<M81>>>" ++ check (runes_of_ascii "options {} // trailing space ")).
+Eval vm_compute in ("<<<M749>>>" ++ check (runes_of_ascii "f64 char[ false u8 string")).
+Eval vm_compute in ("<<<M90>>>" ++ check (runes_of_ascii "
+packet Packet {
+} 	 ")).
+Eval vm_compute in ("<<<M570>>>" ++ check (runes_of_ascii "MetaData u
+    { }")).
+Eval vm_compute in ("<<<M1075>>>" ++ check (runes_of_ascii "packet A {
 }
-// c" ++ [8203]%N)).
-Eval vm_compute in ("<<<M1049>>>" ++ check (runes_of_ascii "packet A {
-}// c" ++ [65279]%N)).
-Eval vm_compute in ("<<<M319>>>" ++ check (runes_of_ascii "packet o
-{
-}
-")).
-Eval vm_compute in ("<<<M990>>>" ++ check (runes_of_ascii "// c" ++ [133]%N)).
-Eval vm_compute in ("<<<M725>>>" ++ check (runes_of_ascii " ")).
+// c" ++ [6158]%N)).
+Eval vm_compute in ("<<<M1169>>>" ++ check (runes_of_ascii "packet x // c
+{ }")).
+Eval vm_compute in ("<<<M755>>>" ++ check (runes_of_ascii "
+'" ++ [17]%N ++ runes_of_ascii "=" ++ [65533; 65533; 65533]%N ++ runes_of_ascii "M" ++ [65533; 65533; 1631]%N)).
+Eval vm_compute in ("<<<M1074>>>" ++ check (runes_of_ascii "// c" ++ [6158]%N)).
